@@ -1033,6 +1033,101 @@ pub fn race_child(assign_json: &str) {
     println!("{}", serde_json::to_string(&rs).unwrap());
 }
 
+// ======================================================================== Miri schedule pass
+// Miri interprets the program and schedules its threads itself: deterministically for a given seed,
+// with preemptions possible at every basic block - also inside code that has no hook points. Each
+// run of /verif/miri-harness releases 2-3 threads that make first calls from `race_ops::alphabet()`
+// and compares them with the native sequential results. Seeds 0..N enumerate N reproducible
+// schedules per assignment (a bounded sample of the schedule space, reproducible by seed).
+
+pub struct MiriStats {
+    pub available: bool,
+    pub assignments: u64,
+    pub seeds_per_assignment: u64,
+    pub reports: Vec<String>,
+}
+
+fn miri_command(verif_dir: &str, flags: &str, args: &[String]) -> Option<(bool, String)> {
+    let o = std::process::Command::new("cargo")
+        .args(["+nightly", "miri", "run", "--offline", "-q", "--manifest-path", &format!("{}/miri-harness/Cargo.toml", verif_dir), "--"])
+        .args(args)
+        .env("MIRIFLAGS", flags)
+        .env("CARGO_TARGET_DIR", format!("{}/target/miri", verif_dir))
+        .env("CARGO_NET_OFFLINE", "true")
+        .output()
+        .ok()?;
+    let mut text = String::from_utf8_lossy(&o.stdout).to_string();
+    text.push_str(&String::from_utf8_lossy(&o.stderr));
+    Some((o.status.success(), text))
+}
+
+fn miri_args(assign: &[usize], expect: &[Res]) -> Vec<String> {
+    assign.iter().map(|&i| format!("{}:{}", i, expect[i].iter().map(|x| format!("{:x}", x)).collect::<Vec<_>>().join(","))).collect()
+}
+
+pub fn miri_pass(verif_dir: &str, quick: bool) -> (MiriStats, Vec<Viol>) {
+    let alpha = crate::race_ops::alphabet();
+    let expect: Vec<Res> = alpha.iter().map(|&op| in_fresh_thread(move || crate::race_ops::run(op))).collect();
+    let mut st = MiriStats { available: false, assignments: 0, seeds_per_assignment: if quick { 24 } else { 48 }, reports: vec![] };
+    let mut out = Vec::new();
+    const BASE: &str = "-Zmiri-disable-isolation -Zmiri-ignore-leaks -Zmiri-deterministic-floats";
+    // availability probe (one thread, one seed); an unusable Miri never fails the check
+    match miri_command(verif_dir, &format!("{} -Zmiri-seed=0", BASE), &miri_args(&[0], &expect)) {
+        Some((true, _)) => st.available = true,
+        Some((false, t)) => {
+            st.reports.push(format!("miri unavailable or reference mismatch under Miri: {}", t.lines().filter(|l| !l.starts_with("R ")).take(3).collect::<Vec<_>>().join(" | ")));
+            return (st, out);
+        }
+        None => {
+            st.reports.push("cargo +nightly miri could not be started".into());
+            return (st, out);
+        }
+    }
+    let n = alpha.len();
+    let mut assigns: Vec<Vec<usize>> = Vec::new();
+    if quick {
+        assigns.extend([vec![0, 0, 1], vec![2, 3], vec![6, 7, 6], vec![9, 11]]);
+    } else {
+        for i in 0..n {
+            assigns.push(vec![i, i]);
+            for j in (i + 1)..n {
+                assigns.push(vec![i, j]);
+            }
+        }
+        assigns.push(vec![0, 0, 1]);
+        assigns.push(vec![6, 7, 6]);
+        assigns.push(vec![9, 10, 11]);
+    }
+    // one process per (assignment, seed), 16 at a time: a single-seed run takes well under a second
+    let jobs: Vec<(Vec<usize>, u64)> = assigns.iter().flat_map(|a| (0..st.seeds_per_assignment).map(move |k| (a.clone(), k))).collect();
+    st.assignments = assigns.len() as u64;
+    let results: Vec<(Vec<usize>, u64, Option<(bool, String)>)> = jobs
+        .par_iter()
+        .map(|(a, k)| {
+            let flags = format!("{} -Zmiri-seed={}", BASE, k);
+            (a.clone(), *k, miri_command(verif_dir, &flags, &miri_args(a, &expect)))
+        })
+        .collect();
+    for (a, k, r) in results {
+        if let Some((ok, text)) = r {
+            if ok {
+                continue;
+            }
+            if let Some(m) = text.lines().find(|l| l.starts_with("MISMATCH")) {
+                out.push(viol(
+                    "C13/schedule-changes-result",
+                    format!("under Miri's scheduler (seed {}), threads calling {:?} together: {}", k, a.iter().map(|&i| format!("{:?}", alpha[i])).collect::<Vec<_>>(), m),
+                    json!({"kind": "miri", "assignment": a, "seed": k.to_string()}),
+                ));
+            } else if st.reports.len() < 8 {
+                let msg = text.lines().filter(|l| l.contains("error") || l.contains("Undefined Behavior") || l.contains("Data race")).take(2).collect::<Vec<_>>().join(" | ");
+                st.reports.push(format!("assignment {:?} seed {}: {}", a, k, msg));
+            }
+        }
+    }
+    (st, out)
+}
+
 fn fixed_ids() -> (u64, u64) {
     // r=3 cell straddling a face edge and an r=5 cell on face 3 (constants: no lookup needed, so that
     // a cold process does not touch any lazy table while building the harness)
@@ -1328,7 +1423,7 @@ pub fn run(tier: &str, verif_dir: &str) -> Report {
             }
         }
         let repeats = if quick { 1 } else { 8 };
-        let staggers: &[usize] = &[0, 2, 8, 30, 120];
+        let staggers: &[usize] = if quick { &[0, 8, 60] } else { &[0, 2, 8, 30, 120] };
         let jobs_owned: Vec<(usize, Vec<usize>)> = (0..repeats).flat_map(|_| staggers.iter().flat_map(|&st| assigns.iter().map(move |a| (st, a.clone())))).collect();
         let jobs: Vec<&(usize, Vec<usize>)> = jobs_owned.iter().collect();
         // two children at a time: the threads of one child need real cores to collide
@@ -1366,6 +1461,13 @@ pub fn run(tier: &str, verif_dir: &str) -> Report {
             }
         }
     }
+    // ---------------- Miri schedule pass
+    let (mst, mv) = miri_pass(verif_dir, quick);
+    rep.sink.extend(mv);
+    for r in &mst.reports {
+        println!("NOTE (Miri, not a verdict): {}", r);
+    }
+    rep.set("miri_pass", json!({"available": mst.available, "assignments": mst.assignments, "seeds_per_assignment": mst.seeds_per_assignment, "reports": mst.reports}));
     rep.set("auxiliary_free_running_children", json!(aux_children));
     rep.set("auxiliary_children_without_output", json!(aux_failed_children));
 
@@ -1421,6 +1523,17 @@ pub fn replay(case: &Value, verif_dir: &str) -> Vec<Viol> {
                 vec![viol("C13/history-changes-result", "results differ from the cold results".into(), case.clone())]
             } else {
                 vec![]
+            }
+        }
+        "miri" => {
+            let a: Vec<usize> = case["assignment"].as_array().map(|x| x.iter().map(|v| v.as_u64().unwrap_or(0) as usize).collect()).unwrap_or_default();
+            let seed = case["seed"].as_str().unwrap_or("0").to_string();
+            let alpha = crate::race_ops::alphabet();
+            let expect: Vec<Res> = alpha.iter().map(|&op| in_fresh_thread(move || crate::race_ops::run(op))).collect();
+            let flags = format!("-Zmiri-disable-isolation -Zmiri-ignore-leaks -Zmiri-deterministic-floats -Zmiri-seed={}", seed);
+            match miri_command(verif_dir, &flags, &miri_args(&a, &expect)) {
+                Some((false, t)) if t.contains("MISMATCH") => vec![viol("C13/schedule-changes-result", t.lines().find(|l| l.starts_with("MISMATCH")).unwrap_or("").to_string(), case.clone())],
+                _ => vec![],
             }
         }
         "race" => {
